@@ -133,3 +133,161 @@ def annotate_readers(pid, cfg, results, tier, seed):
     if readers:
         out["undecided"].append("reader(s) of the annotate flag outside the functions under contract: %s — the non-interference argument of C11 no longer covers the whole crate" % "; ".join(readers))
     return out
+
+
+# ------------------------------------------------------------------------------------------------
+# Kani function contracts written in place on common/position.rs (loop-free, full usize domain: a
+# passing harness is a complete proof, a failing one yields a concrete counterexample).
+KANI_HARNESSES = {
+    "check_offset_line": ("CaretPos::offset_line", "offset_line", 3),
+    "check_offset_pos": ("CaretPos::offset_pos", "offset_pos", 3),
+    "check_newline": ("CaretPos::newline", "newline", 2),
+    "check_get_width": ("Position::get_width", "get_width", 4),
+    "check_union": ("Position::union", "union", 8),
+}
+
+
+def _kani_dir():
+    from . import driver
+    return os.path.join(driver.BUILD, "kani-pos")
+
+
+def _kani_prepare():
+    import subprocess
+    from . import driver
+    d = _kani_dir()
+    if not os.path.exists(os.path.join(driver.REPO, "Cargo.toml")):
+        return None, "%s is not a full crate: Kani unavailable" % driver.REPO
+    os.makedirs(d, exist_ok=True)
+    p = subprocess.run(["rsync", "-a", "--delete", "--exclude", "target", "--exclude", ".git", "--exclude", "Cargo.lock",
+                        driver.REPO.rstrip("/") + "/", d + "/"], capture_output=True, text=True)
+    if p.returncode != 0:
+        return None, "rsync failed: " + p.stderr[-300:]
+    lock = os.path.join(d, "Cargo.lock")
+    src_lock = os.path.join(driver.REPO, "Cargo.lock")
+    stamp = os.path.join(d, ".lock_src_sha")
+    import hashlib
+    sha = hashlib.sha256(open(src_lock, "rb").read()).hexdigest()
+    if not os.path.exists(lock) or not os.path.exists(stamp) or open(stamp).read() != sha:
+        import shutil
+        shutil.copy(src_lock, lock)
+        env = dict(os.environ, CARGO_NET_OFFLINE="true")
+        # proc-macro2 1.0.47 does not build on Kani's nightly; it is reached only through the test-only
+        # assert_cmd -> escargot -> serde_derive chain.  The bump is applied to the COPY's lock file only.
+        q = subprocess.run(["cargo", "update", "-p", "proc-macro2", "--precise", "1.0.106", "--offline"], cwd=d,
+                           capture_output=True, text=True, env=env)
+        if q.returncode != 0:
+            return None, "cargo update in the Kani copy failed: " + q.stderr[-300:]
+        open(stamp, "w").write(sha)
+    return d, None
+
+
+def _kani_run(d, harness=None, playback=False, timeout=1500):
+    import subprocess
+    cmd = ["cargo", "kani", "-Z", "function-contracts"]
+    if harness:
+        cmd += ["--harness", "verif_kani::" + harness]
+    if playback:
+        cmd += ["-Z", "concrete-playback", "--concrete-playback=print"]
+    env = dict(os.environ, CARGO_NET_OFFLINE="true")
+    try:
+        p = subprocess.run(cmd, cwd=d, capture_output=True, text=True, env=env, timeout=timeout)
+        return p.returncode, p.stdout + p.stderr, " ".join(cmd)
+    except subprocess.TimeoutExpired:
+        return 124, "TIMEOUT", " ".join(cmd)
+
+
+def _kani_parse(out):
+    import re
+    res = {}
+    cur = None
+    for line in out.splitlines():
+        m = re.search(r"Checking harness \S*verif_kani::(\w+)", line)
+        if m:
+            cur = m.group(1)
+            res[cur] = {"status": None, "checks": 0, "failed": 0, "failures": []}
+            continue
+        if cur:
+            m = re.search(r"\*\* (\d+) of (\d+) failed", line)
+            if m:
+                res[cur]["failed"], res[cur]["checks"] = int(m.group(1)), int(m.group(2))
+            if "VERIFICATION:- SUCCESSFUL" in line:
+                res[cur]["status"] = "ok"
+            elif "VERIFICATION:- FAILED" in line:
+                res[cur]["status"] = "failed"
+    return res
+
+
+def _kani_counterexample(out, n):
+    """byte vectors of the concrete playback test -> first n little-endian integers"""
+    import re
+    vals = []
+    for m in re.finditer(r"vec!\[([0-9,\s]+)\]", out):
+        bs = [int(x) for x in m.group(1).replace("\n", " ").split(",") if x.strip()]
+        if 1 <= len(bs) <= 8:
+            vals.append(sum(b << (8 * i) for i, b in enumerate(bs)))
+    return vals[:n] if len(vals) >= n else None
+
+
+def _expected(op, v):
+    M = (1 << 64) - 1
+    if op == "offset_line":
+        return "CARET|%d|%d" % (v[0] + v[2], v[1])
+    if op == "offset_pos":
+        return "CARET|%d|%d" % (v[0], v[1] + v[2])
+    if op == "newline":
+        return "CARET|%d|%d" % (v[0] + 1, 1)
+    if op == "get_width":
+        return "WIDTH|%d" % max(1, abs(v[3] - v[1]))
+    if op == "union":
+        return "POSITION|%d|%d|%d|%d" % (min(v[0], v[4]), min(v[1], v[5]), max(v[2], v[6]), max(v[3], v[7]))
+    return None
+
+
+def kani_pos(pid, cfg, results, tier, seed):
+    out = {"info": {"backend": "Kani 0.68 / CBMC 6.11, -Z function-contracts, contracts in place on src/common/position.rs",
+                    "harnesses": {}},
+           "violations": [], "undecided": [], "cmds": [], "samples": [], "obligations": 0, "discharged": 0,
+           "trusted": ["KANI: Kani 0.68 + CBMC 6.11 + kissat; proc-macro2 bumped to 1.0.106 in the scratch copy's lock file only"]}
+    if tier != "thorough" and not cfg.get("kani_quick"):
+        out["info"]["skipped"] = "Kani runs in the thorough tier for this property"
+        return out
+    d, err = _kani_prepare()
+    if err:
+        out["undecided"].append(err)
+        return out
+    rc, txt, cmd = _kani_run(d)
+    out["cmds"].append("(cd /verif/build/kani-pos && CARGO_NET_OFFLINE=true %s)" % cmd)
+    res = _kani_parse(txt)
+    if not res:
+        out["undecided"].append("Kani produced no harness results (rc=%s): %s" % (rc, txt[-400:]))
+        return out
+    for h, (target, op, n) in KANI_HARNESSES.items():
+        r = res.get(h)
+        if not r or r["status"] is None:
+            out["undecided"].append("Kani harness %s did not report" % h)
+            continue
+        out["obligations"] += 1
+        out["info"]["harnesses"][h] = r
+        ok = r["status"] == "ok"
+        if ok:
+            out["discharged"] += 1
+        out["samples"].append({"obligation": "POS-KANI::%s (contract of %s over the full usize domain)" % (h, target),
+                               "backend": "kani/cbmc", "discharged": ok, "cbmc_checks": r["checks"]})
+        if not ok:
+            rc2, txt2, cmd2 = _kani_run(d, h, playback=True)
+            vals = _kani_counterexample(txt2, n)
+            case = None
+            rendered = "\n".join(l for l in txt2.splitlines() if "FAILURE" in l or "Description" in l)[:1500]
+            if vals:
+                from . import replay
+                case = {"kind": "caret", "op": op, "values": vals}
+                rrc, rout = replay.run_case(case)
+                exp = _expected(op, vals)
+                rendered += "\nKani counterexample %s(%s); real code returns %s, contract expects %s" % (
+                    op, vals, (rout or "").strip(), exp)
+                case["expected"] = exp
+            out["violations"].append(({"unit": "POS-KANI"}, {
+                "obligation": "POS-KANI::%s" % target, "kind": "kani", "fn": target,
+                "message": "Kani: contract of %s fails" % target, "rendered": rendered, "case": case}))
+    return out
